@@ -1,11 +1,11 @@
 SPECIFICATION Spec
 CONSTANTS
   NN = 3
-  NH = 2
+  NH = 1
   NM = 2
   IndexMk <- cIndex
   Sess <- cSess
-  MaxOrders = 5
+  MaxOrders = 4
 INVARIANT NoConsultWithoutPlacement
 INVARIANT NoAcceptWithoutPlacement
 INVARIANT NoFillWithoutExec
